@@ -74,6 +74,10 @@ E2_ASSUMPTIONS = [
     "ring identities with integer coefficients decided over the rationals (z3 reals) hold in F_p; roots of unity are formal powers of t in Z[t]/(t^8+1) after the concrete lemmas on the parsed literals",
 ]
 
+E2S_ASSUMPTIONS = E2_ASSUMPTIONS + [
+    "felt-sx (structural) encoding: field elements are integers mod p; general mul/pow/div and all hashes are uninterpreted; hashes are collision-free (injectivity through companion inverse functions) and domain separated",
+    "vector LENGTHS are enumerated (concrete per query), contents symbolic; the Rust subset executed is listed in smt/README.md - leaving it is inconclusive",
+]
 PROPS["C15"] = dict(
     title="Closed-form AIR boundary values equal their defining products",
     level="model_checking",
@@ -115,6 +119,7 @@ PROPS["C10"] = dict(
     ] + [
         e1("C10.generate.n3.small_domain", "c10_generate_3_small", "as C10.generate.n3 with domain size 2^k, k in 1..=3 (collisions are the interesting case and do not depend on k)", "generate_queries == sort+dedup(...) for 3 queries over tiny domains", timeout=1200, witness=False, mem=20),
         e2("C10S"),
+        e1("C10.points.consecutive", "c10_points2", "log domain size any in 2..=64, generator any felt, two consecutive indices q, q+1 with q any", "each of two adjacent queries is mapped to 3 * w^bitreverse(index) independently", timeout=1800, mem=10),
         e1("C10.points", "c10_points", "log domain size any in 1..=64, generator any felt, index any < 2^log (one query)", "queries_to_points: index -> 3 * w^bitreverse_log(index) (w^e an uninterpreted pow, bit reversal exact)", timeout=1200),
     ],
     outside=["query counts above 5 (sorting code is std's; the loop body is uniform)", "agreement with the indices the prover logged on recorded proofs (concrete file replay)",
@@ -152,7 +157,7 @@ def _c04(kind, h, k, tier, feats=DF, tag=""):
             "wrongroot": "honest leaves + honest sibling nodes are rejected for any commitment other than the tree's root"}[kind]
     return e1("C04.%s.h%d.k%d%s" % (kind, h, k, tag), name,
               "height %d (%d leaves, any felts), %d sorted distinct query indices (symbolic), friendly-layer count any in 0..=%d, authentication vector of %d arbitrary felts" % (h, 1 << h, k, h + 1, h * k),
-              desc, tier=tier, features=feats, timeout=2400, unwindset={REC: h * k + 2}, mem=(10 if h * k <= 2 else 24))
+              desc, tier=tier, features=feats, timeout=2400, unwindset={REC: h * k + 2}, mem=(8 if h * k <= 2 else 24))
 def _c04c(h, tier, feats=DF, tag=""):
     return e1("C04.corrupt_auth.h%d%s" % (h, tag), "c04_corrupt_h%d" % h, "height %d, one query (index symbolic), one authentication node replaced by any different value (position symbolic) / last node missing" % h,
               "a changed or missing sibling node is rejected", tier=tier, features=feats, timeout=2400, unwindset={REC: h + 2}, mem=16)
@@ -160,7 +165,8 @@ PROPS["C04"] = dict(
     title="Merkle vector decommitment is complete and binding for all shapes",
     level="model_checking",
     obligations=[
-        _c04("bind", 1, 1, Q), _c04("bind", 2, 1, Q), _c04("complete", 2, 1, Q), _c04("complete", 2, 2, Q), _c04c(1, Q),
+        e2("C04S"),
+        _c04("bind", 1, 1, Q), _c04("bind", 2, 1, Q), _c04("complete", 2, 1, Q), _c04("complete", 2, 2, T), _c04c(1, Q),
         _c04("bind", 2, 1, Q, BLAKE, ".blake2s_248"),
         _c04c(2, T), _c04("complete", 2, 1, T, BLAKE, ".blake2s_248"),
         _c04("bind", 2, 2, T), _c04("bind", 2, 2, T, BLAKE, ".blake2s_248"), _c04("complete", 2, 2, T, BLAKE, ".blake2s_248"),
@@ -169,7 +175,9 @@ PROPS["C04"] = dict(
         _c04("bind", 2, 2, T, K248, ".keccak_248"), _c04("complete", 2, 2, T, K248, ".keccak_248"),
         _c04("bind", 2, 2, T, B160, ".blake2s_160"), _c04("complete", 2, 2, T, B160, ".blake2s_160"),
     ],
-    outside=["tree heights above 3 and more than 3 queries (the queue algorithm is a uniform recursion; that induction is not made here)",
+    assumptions=E2S_ASSUMPTIONS,
+    technique="bounded model checking of the compiled real code with Kani/CBMC (heights <= 2-3, symbolic indices) + source-level symbolic execution with z3 and uninterpreted collision-free hashes (heights <= 3 quick / 4 thorough, every sorted index set of <= 3 queries)",
+    outside=["tree heights above 4 and more than 3 queries (the queue algorithm is a uniform recursion; that induction is not made here)",
              "collision resistance of the hashes (assumed: uninterpreted collision-free functions)"],
 )
 def _c05(id, harness, bounds, desc, tier=Q, feats=DF, depth=3, mem=12, timeout=2400):
@@ -178,6 +186,7 @@ PROPS["C05"] = dict(
     title="Table decommitment binds every cell of every queried row",
     level="model_checking",
     obligations=[
+        e2("C05S"),
         _c05("C05.row.cols1", "c05_row_1_f1", "1 column, 1 row (vector height 0); cell, commitment any felts", "Ok <=> commitment == the cell in Montgomery form (single-column rows unhashed); a different cell is rejected", depth=1),
         _c05("C05.row.cols2.friendly", "c05_row_2_f1", "2 columns, 1 row; cells and commitment any felts; friendly-layer count 1 = height+1", "Ok <=> commitment == Poseidon row hash of the cells*R; a row differing in any cell is rejected", depth=1),
         _c05("C05.row.cols2.masked", "c05_row_2_f0", "2 columns, 1 row; cells and commitment any felts; friendly-layer count 0", "Ok <=> commitment == masked (Keccak/Blake2s low bits) row hash of the cells*R; a differing row is rejected (the real code's byte-wise flat_map/extend makes this a multi-million-step symex: thorough only)", tier=T, depth=1, mem=44, timeout=7200),
@@ -190,13 +199,11 @@ PROPS["C05"] = dict(
         _c05("C05.row.cols3.friendly", "c05_row_3_f1", "3 columns, 1 row, Poseidon", "row hash over 3 cells", tier=T, depth=1),
         _c05("C05.row.cols1.f0", "c05_row_1_f0", "1 column, friendly-layer count 0", "single cell unhashed regardless of the friendly rule", tier=T, depth=1),
     ],
-    outside=["more than 4 columns (FRI layers use up to 16) and heights above 1", "x -> x*R injective: a field law (R != 0) assumed through the cancellation law of the mul UF"],
+    assumptions=E2S_ASSUMPTIONS,
+    technique="bounded model checking of the compiled real code with Kani/CBMC + source-level symbolic execution with z3 and uninterpreted collision-free hashes (up to 4 columns quick / 16 thorough, heights <= 2)",
+    outside=["more than 16 columns (e.g. trace tables of up to 128 columns) and heights above 2", "x -> x*R injective: a field law (R != 0) assumed through the cancellation law of the mul UF"],
 )
 
-E2S_ASSUMPTIONS = E2_ASSUMPTIONS + [
-    "felt-sx (structural) encoding: field elements are integers mod p; general mul/pow/div and all hashes are uninterpreted; hashes are collision-free (injectivity through companion inverse functions) and domain separated",
-    "vector LENGTHS are enumerated (concrete per query), contents symbolic; the Rust subset executed is listed in smt/README.md - leaving it is inconclusive",
-]
 PROPS["C13"] = dict(
     title="The public-input digest binds every field of the public input",
     level="model_checking",
@@ -212,6 +219,9 @@ PROPS["C14"] = dict(
     technique="symbolic execution of the real validate_public_input / verify_public_input (z3, integers mod p, uninterpreted Pedersen) against an independent integer predicate and an address-based oracle; Kani cross-check of validate for the recursive layout in the thorough tier",
     obligations=[
         e2("C14"),
+        e1("C14.page_layout.kani.m3", "c14_page_layout_3", "main page of 3 cells with any addresses; initial pc, output start any felts; program / output lengths 0..=3",
+           "check_main_page_layout Ok => enough cells, program cells at initial_pc+i, output cells at output_start+j (full field equality) (compiled real code)", timeout=900, mem=10),
+        e1("C14.page_layout.kani.m4", "c14_page_layout_4", "as above with 4 cells", "as above", tier=T, timeout=1800, mem=10),
         e1("C14.validate.recursive.kani", "c14_validate", "layout recursive: log_n_steps, range-check bounds, layout code, all 6 segment bounds any felts; trace length 2^t, t any in 0..=120",
            "validate_public_input(..).is_ok() <=> the statement's predicate (usage = stop - begin in the field)", tier=T, timeout=5400, mem=16),
     ],
@@ -235,7 +245,10 @@ PROPS["C07"] = dict(
     obligations=[e2("C07"), e2("C07S")] + [
         e1("C07.last_layer_length.kani.len%d" % l, "c07_last_len_%d" % l, "fri_verify on the one-layer instance (no inner layers), one query, %d last-layer coefficients (any felts), log bound any in 0..=3" % l,
            "Ok => the number of coefficients is exactly 2^bound (compiled real code: no parser subset)", tier=(Q if l in (2, 3) else T), timeout=900, witness=(l in (1, 2, 4)), mem=10)
-        for l in range(0, 6)],
+        for l in range(0, 6)] + [
+        e1("C07.last_layer_value.kani.len%d" % l, "c07_last_value_%d" % l, "fri_verify on the one-layer instance, one query, %d coefficients (any felts), query value any felt different from the polynomial's value at the query point" % l,
+           "a query value inconsistent with the last-layer polynomial is rejected (compiled real code)", tier=(Q if l == 1 else T), timeout=(1200 if l == 1 else 3600), mem=10)
+        for l in (1, 2, 4)],
     assumptions=E2S_ASSUMPTIONS,
     outside=["'a function of degree >= bound is rejected except with small probability': a probabilistic statement over the query randomness - no solver here can quantify over provers",
              "queried input values / evaluation points: they are recomputed or absorbed; that a changed challenge makes a later check fail is probabilistic",
